@@ -1157,6 +1157,45 @@ def _k(key):
 # ---------------------------------------------------------------------------
 
 
+def shared_typedef(chk):
+    """Objects declared through one typedef of an array of unknown size: every initialiser completes the type of ITS object only
+    (static and automatic storage, int/char/struct elements, string initialisers).  Expected sizes follow from the initialiser."""
+    srv = fs.server('fs')
+    elems = [('int', 4, ['{1, 2, 3}', '{7}', '{[4] = 1}', '{1, 2}']), ('char', 1, ['"abc"', '"x"', '{1, 2, 3, 4, 5}', '""']),
+             ('struct { short a; char b; }', 4, ['{{1, 2}, {3, 4}}', '{{5}}', '{[2] = {6, 7}}', '{1, 2, 3}'])]
+    counts = {'{1, 2, 3}': 3, '{7}': 1, '{[4] = 1}': 5, '{1, 2}': 2, '"abc"': 4, '"x"': 2, '{1, 2, 3, 4, 5}': 5, '""': 1,
+              '{{1, 2}, {3, 4}}': 2, '{{5}}': 1, '{[2] = {6, 7}}': 3}
+    n = 0
+    for ei, (et, esz, inits) in enumerate(elems):
+        cnt = dict(counts)
+        if et.startswith('struct'):
+            cnt['{1, 2, 3}'] = 2
+        for order in itertools.permutations(range(len(inits)), 3):
+            decls = ['typedef %s A%d[];' % (et, ei)]
+            exp = {}
+            for k, ii in enumerate(order):
+                decls.append('A%d o%d = %s;' % (ei, k, inits[ii]))
+                exp['o%d' % k] = cnt[inits[ii]] * esz
+            decls.append('unsigned long sz[] = {%s};' % ', '.join('sizeof o%d' % k for k in range(3)))
+            decls.append('void f(void) { A%d l0 = %s; A%d l1 = %s; static unsigned long lsz[] = {sizeof l0, sizeof l1}; }' % (ei, inits[order[0]], ei, inits[order[1]]))
+            src = '\n'.join(decls) + '\n'
+            r = srv.compile(src, cpu_s=10)
+            n += 1
+            if r.status != 0:
+                chk.violation('typedef-array/rejected', 'unit rejected (status %s): %s' % (r.status, r.err[:200]), files={'input.c': src.encode()})
+                continue
+            objs = L.parse_qbe_data(r.out)
+            got = {k: (len(objs[k].image) if k in objs else None) for k in exp}
+            szs = struct.unpack('<3Q', objs['sz'].image) if 'sz' in objs else None
+            lk = [k for k in objs if k.startswith('.Llsz')]
+            lsz = struct.unpack('<2Q', objs[lk[0]].image) if lk else None
+            want_l = (cnt[inits[order[0]]] * esz, cnt[inits[order[1]]] * esz)
+            if got != exp or szs != tuple(exp['o%d' % k] for k in range(3)) or lsz != want_l:
+                chk.violation('typedef-array/initialiser-completes-the-shared-typedef', 'typedef %s A[]; objects initialised with %s: image sizes %r, sizeof %r, automatic sizeof %r; expected %r and %r' % (
+                    et, [inits[i] for i in order], got, szs, lsz, exp, want_l), files={'input.c': src.encode()}, cmd='$CPROC_QBE input.c | grep "^export data\|^data"')
+    return n
+
+
 def main(chk):
     quick = chk.quick
     TOTKEYS = ('cases', 'evals', 'compared', 'witness_warned', 'witness_split', 'witness_differ', 'expected_reject', 'd_run',
@@ -1255,12 +1294,14 @@ def main(chk):
         chk.notes.append('reference model disagrees with both witnesses (not judged): %r' % (m,))
     for s in strata:
         chk.strata[s] = strata[s]
+    nshared = shared_typedef(chk)
     cov = {
         'states': len(states),
         'transitions': len(trans),
         'traces_validated_against_impl': tot['evals'],
         'samples': samples or [{'none': True}],
-        'evaluations': tot['evals'] + tot['cross_target'] + tot['d_compared'] + tot['variants'],
+        'evaluations': tot['evals'] + tot['cross_target'] + tot['d_compared'] + tot['variants'] + nshared,
+        'shared_typedef_units': nshared,
         'thread_and_compound_literal_variants_compared': tot['variants'],
         'cases': tot['cases'],
         'cases_per_type': per_type,
